@@ -20,6 +20,7 @@ import (
 	"strconv"
 	"strings"
 	"sync"
+	"sync/atomic"
 	"time"
 )
 
@@ -216,9 +217,15 @@ func (r *Run) Do(caseID string, fn func()) {
 // Exec is Do without the ownership test.
 func (r *Run) Exec(caseID string, fn func()) {
 	r.mark(caseID)
-	done := make(chan struct{})
-	defer close(done)
-	go r.hangWatch(caseID, done)
+	// the hang watchdog (one goroutine per process, started with the first case) looks at these two
+	seq := hangSeq.Add(1)
+	hangCase.Store(&hangInfo{seq: seq, id: caseID, start: time.Now()})
+	hangOnce.Do(func() { go r.hangWatch() })
+	defer func() {
+		// an outer case (a check that nests Exec calls) becomes current again without a fresh start time; good enough for a
+		// watchdog that only ever speaks after ten minutes on one mutex
+		hangCase.Store(&hangInfo{seq: hangSeq.Add(1), id: "", start: time.Now()})
+	}()
 	defer func() {
 		if p := recover(); p != nil {
 			st := string(debug.Stack())
@@ -232,20 +239,36 @@ func (r *Run) Exec(caseID string, fn func()) {
 // a verdict: a goroutine that has been waiting for a sync.Mutex / sync.RWMutex for at least mutexStuck minutes with
 // code of the repository on its stack - no amount of machine load explains that; it is reported as a hang and the worker
 // ends (its other results are kept). Anything else is left running (the parent's worker watchdog makes it inconclusive).
+// One goroutine per process that wakes twice a minute and allocates nothing until a case is overdue (C14 measures the
+// allocations of single decodes; a goroutine and a timer per case showed up there under load).
 const (
 	caseWatchdog = 12 * time.Minute
 	mutexStuck   = 10 // minutes
 )
 
+type hangInfo struct {
+	seq   int64
+	id    string
+	start time.Time
+}
+
+var (
+	hangSeq  atomic.Int64
+	hangCase atomic.Pointer[hangInfo]
+	hangOnce sync.Once
+)
+
 var reGoroutineHeader = regexp.MustCompile(`^goroutine \d+ \[([a-z A-Z.]+)(?:, (\d+) minutes)?\]:$`)
 
-func (r *Run) hangWatch(caseID string, done <-chan struct{}) {
-	for {
-		select {
-		case <-done:
-			return
-		case <-time.After(caseWatchdog):
+func (r *Run) hangWatch() {
+	tick := time.NewTicker(30 * time.Second)
+	defer tick.Stop()
+	for range tick.C {
+		cur := hangCase.Load()
+		if cur == nil || cur.id == "" || time.Since(cur.start) < caseWatchdog {
+			continue
 		}
+		caseID := cur.id
 		buf := make([]byte, 16<<20)
 		dump := string(buf[:runtime.Stack(buf, true)])
 		for _, g := range strings.Split(dump, "\n\n") {
@@ -274,10 +297,8 @@ func (r *Run) hangWatch(caseID string, done <-chan struct{}) {
 			if site == "" {
 				continue
 			}
-			select {
-			case <-done:
-				return
-			default:
+			if now := hangCase.Load(); now == nil || now.seq != cur.seq {
+				break // the case returned meanwhile
 			}
 			r.Violate("hang|mutex|"+site, fmt.Sprintf("a goroutine has been waiting for a mutex in %s for %s minutes while executing this case (the case never returned)", site, m[2]), caseID, map[string]any{"goroutine": trimStack(g)})
 			if r.isChild {
